@@ -1261,7 +1261,7 @@ func TestC07(t *testing.T) {
 		// stream is a panic)
 		tmpc, _ := os.MkdirTemp("", "c07cr")
 		defer os.RemoveAll(tmpc)
-		r.Cases("closerace", r.N(4, 40), 4, func(ci int, rng *rand.Rand) {
+		r.Cases("closerace", r.N(8, 60), 4, func(ci int, rng *rand.Rand) {
 			out := filepath.Join(tmpc, fmt.Sprintf("cr%d.json", ci))
 			errPath := out + ".stderr"
 			ef, _ := os.Create(errPath)
@@ -1273,7 +1273,7 @@ func TestC07(t *testing.T) {
 				}
 				env = append(env, kv)
 			}
-			cmd.Env = append(env, "VERIF_C07_CLOSERACE="+out, fmt.Sprintf("VERIF_C07_SEED=%d", rng.Int63()), "VERIF_C07_TRIALS=1500")
+			cmd.Env = append(env, "VERIF_C07_CLOSERACE="+out, fmt.Sprintf("VERIF_C07_SEED=%d", rng.Int63()), "VERIF_C07_TRIALS=3000")
 			cmd.Stdout, cmd.Stderr = ef, ef
 			runErr := cmd.Run()
 			ef.Close()
